@@ -235,6 +235,7 @@ class CollisionMachine(Machine):
         self.solverBasis = cfg["solverBasis"]
         # what the solver's installed array was built from
         self.installed: dict | None = None
+        self.returned: list = []
 
     def _grid(self, N: int, T: float | None = None) -> Any:
         c = self.cfg
@@ -395,7 +396,20 @@ class CollisionMachine(Machine):
             raise HarnessError(f"unknown op {step['op']}")
         with warnings.catch_warnings():
             warnings.simplefilter("ignore")
-            return handler(step)
+            obs = handler(step)
+            self._checkReturnedArrays(step["op"])
+            return obs
+
+    def _checkReturnedArrays(self, laterOp: str) -> None:
+        """an array a load returned to the caller earlier must not change when
+        later loads / basis changes of OTHER arrays happen"""
+        for arr, was in self.returned:
+            self.ctx.checks["earlier_array_unchanged"] += 1
+            if self._contentDigest(arr) != was:
+                self.returned = []
+                raise Violation("installed-array", "returned-array-changed-by-later-operation",
+                                f"a CollisionArray returned by an earlier load changed during a "
+                                f"later {laterOp}: it shares memory with another array or buffer")
 
     def _op_write_generation(self, step: dict) -> Any:
         if sorted(step["order"]) != list(range(len(self.pairs))):
@@ -670,6 +684,8 @@ class CollisionMachine(Machine):
             ctx.probes[f"relaxed_load_returned_{cls}"] += 1
         if intoSolver:
             self.installed = {"sources": sources, "N": NT, "basis": basis, "names": list(names)}
+        elif strength == "strict-ok":
+            self.returned = (self.returned + [(arr, self._contentDigest(arr))])[-2:]
         return [what, "ok", cls, data]
 
     def _sizeClass(self, NT: int, NF: int) -> str:
